@@ -32,6 +32,7 @@ type c09Action struct {
 type c09Case struct {
 	Refresh     bool        `json:"refresh"`
 	Expiry      bool        `json:"expiry"`
+	ShortTTL    bool        `json:"short_ttl,omitempty"` // entries live 120 ns and the clock moves in steps of 150 ns: a written entry can lapse while a load is in flight
 	GateMiss    bool        `json:"gate_after_miss"`
 	GateInstall bool        `json:"gate_before_install"`
 	Keys        int         `json:"keys"`
@@ -44,9 +45,11 @@ type c09Load struct {
 	gate       chan string
 	registered bool // the loader has been reached
 	released   bool
+	releasedAt int64 // clock when the loader returned: the cache samples the clock for the new entry right after
 	out        string
 	val        int
 	superseded bool
+	laterWrite bool // an explicit write call to the key began after this load had registered
 	installed  bool     // installation step finished (or skipped)
 	writeInCb  bool     // a write call to the key was blocked inside its own callback when this load registered
 	igate      *c09Gate // the load.beforeInstall gate this load is (or was) parked at
@@ -64,6 +67,8 @@ type c09World struct {
 	loads     []*c09Load
 	gates     []*c09Gate
 	model     map[int]int // 0 = absent
+	modelExp  map[int]int64
+	ttl       int64
 	valCtr    int
 	windows   map[string]int
 	blockCh   chan struct{} // writer blocked inside its calculator callback
@@ -87,9 +92,13 @@ func genC09(t *rapid.T) c09Case {
 		GateInstall: rapid.Bool().Draw(t, "gateinstall"),
 		Keys:        rapid.IntRange(1, 2).Draw(t, "keys"),
 	}
+	c.ShortTTL = c.Expiry && rapid.Bool().Draw(t, "shortttl")
 	ops := []string{"get", "get", "bulkget", "write", "write", "write", "release", "release", "pass", "pass"}
 	if c.Refresh {
 		ops = append(ops, "refresh", "advance")
+	}
+	if c.ShortTTL {
+		ops = append(ops, "advance", "advance")
 	}
 	if c.Expiry {
 		ops = append(ops, "blockedwrite")
@@ -177,17 +186,20 @@ func (e c09Expiry) block(k int) {
 }
 func (e c09Expiry) ExpireAfterCreate(en otter.Entry[int, int]) time.Duration {
 	e.block(en.Key)
-	return time.Hour
+	return time.Duration(e.w.ttl)
 }
 func (e c09Expiry) ExpireAfterUpdate(en otter.Entry[int, int], old int) time.Duration {
 	e.block(en.Key)
-	return time.Hour
+	return time.Duration(e.w.ttl)
 }
 func (e c09Expiry) ExpireAfterRead(en otter.Entry[int, int]) time.Duration { return en.ExpiresAfter() }
 
 func runC09(c c09Case) outcome {
 	var o outcome
-	w := &c09World{model: map[int]int{}, windows: map[string]int{}, missWindowWrite: map[int]bool{}, keyOfG: map[int64]int{}, loadOfG: map[int64]*c09Load{}}
+	w := &c09World{model: map[int]int{}, modelExp: map[int]int64{}, ttl: int64(time.Hour), windows: map[string]int{}, missWindowWrite: map[int]bool{}, keyOfG: map[int64]int{}, loadOfG: map[int64]*c09Load{}}
+	if c.ShortTTL {
+		w.ttl = 120
+	}
 	var verr error
 	fail := func(f string, a ...any) {
 		if verr == nil {
@@ -262,6 +274,7 @@ func runC09(c c09Case) outcome {
 				}
 				if present {
 					w.model[k] = v
+					w.modelExp[k] = clock.Now() + w.ttl
 				} else {
 					delete(w.model, k)
 				}
@@ -273,6 +286,7 @@ func runC09(c c09Case) outcome {
 							w.windows["write-after-loader-returned-before-install"]++
 						}
 						l.superseded = true
+						l.laterWrite = true
 					}
 				}
 				for _, g := range pendingGates() {
@@ -297,11 +311,16 @@ func runC09(c c09Case) outcome {
 							switch l.out {
 							case "val":
 								w.model[l.key] = l.val
+								w.modelExp[l.key] = l.releasedAt + w.ttl
 							case "notfound":
 								delete(w.model, l.key)
 							}
-						} else if l.writeInCb {
-							// nothing: handled when judged
+						} else if l.writeInCb && !l.laterWrite && c.Expiry && w.modelExp[l.key] <= l.releasedAt {
+							// The only write that overlaps this load is the stalled one: its call began (and sampled the clock) before
+							// the load registered, and what it published has already lapsed when the load result arrives. The loaded
+							// value is not older than that write, and "the write, then - after its lifetime - the load" explains the
+							// history sequentially, so installing the load is accepted as well as dropping it.
+							w.missWindowWrite[l.key] = true
 						}
 					}
 				}
@@ -326,10 +345,17 @@ func runC09(c c09Case) outcome {
 					}
 					g, ok := cache.GetEntryQuietly(k)
 					want, has := w.model[k]
+					if has && c.Expiry && w.modelExp[k] <= clock.Now() {
+						has = false // lapsed: not visible, whether or not it has been swept
+						if ok && g.Value == want {
+							fail("%s: key %d is visible with value %d although its lifetime (120 ns) has passed", where, k, g.Value)
+						}
+					}
 					if (ok != has || (ok && g.Value != want)) && w.missWindowWrite[k] {
 						// either the load or the write may have won (see missWindowWrite): resync
 						if ok {
 							w.model[k] = g.Value
+							w.modelExp[k] = g.ExpiresAtNano
 						} else {
 							delete(w.model, k)
 						}
@@ -397,6 +423,7 @@ func runC09(c c09Case) outcome {
 					if len(p) > 0 {
 						l := p[a.Idx%len(p)]
 						l.released = true
+						l.releasedAt = clock.Now()
 						l.gate <- a.Out
 					}
 				case "pass":
@@ -463,6 +490,18 @@ func runC09(c c09Case) outcome {
 						w.mu.Unlock()
 					case "computecancel":
 						cache.Compute(k, func(int, bool) (int, otter.ComputeOp) { return 0, otter.CancelOp })
+						// A cancelled computation that finds a lapsed entry clears it away, and with it the in-flight record
+						// of the key: a load in flight may then be dropped although nothing was written. The statement only
+						// forbids installing after a write, so both outcomes are accepted for this key.
+						w.mu.Lock()
+						if _, has := w.model[k]; has && c.Expiry && w.modelExp[k] <= clock.Now() {
+							for _, l := range w.loads {
+								if l.key == k && !l.installed {
+									w.missWindowWrite[k] = true
+								}
+							}
+						}
+						w.mu.Unlock()
 					case "invalidate":
 						cache.Invalidate(k)
 						w.mu.Lock()
@@ -474,7 +513,7 @@ func runC09(c c09Case) outcome {
 						absentLoad := false
 						for _, l := range w.loads {
 							if !l.installed {
-								if _, has := w.model[l.key]; !has {
+								if _, has := w.model[l.key]; !has || (c.Expiry && w.modelExp[l.key] <= clock.Now()) {
 									absentLoad = true
 								}
 							}
@@ -541,6 +580,7 @@ func runC09(c c09Case) outcome {
 				}
 				for _, l := range pl {
 					l.released = true
+					l.releasedAt = clock.Now()
 					l.gate <- "val"
 				}
 				for _, g := range pg {
